@@ -47,5 +47,18 @@ CLAIMS['C05'] = {
   'note': _TB + 'Float._denormalise by contract in the multiplication identity; integers are computed in single precision for + - * / (as the code does).',
 }
 
+CLAIMS['C12'] = {
+  'text': 'Proof: Arrays.index is within [0, number of elements) and injective on in-bounds subscript tuples (nonlinear integer arithmetic, ranks 1..4, symbolic bounds and subscripts up to 32767, both OPTION BASE values); '
+          'view_buffer returns exactly the element slot inside the buffer; check_dim raises Subscript out of range / Illegal function call exactly for invalid tuples and changes no element, auto-dimensions undeclared arrays; '
+          'allocate / erase_ / option_base_ follow the statement (Duplicate definition, re-dimensioning after ERASE, base rules, memory bookkeeping).',
+  'note': _TB + 'Ranks are separate cases (1..4 for index, 1..3 for the rest); array buffers have symbolic length with unmodelled content; DataSegment is a stand-in.',
+}
+CLAIMS['C26'] = {
+  'text': 'Proof: Locks.acquire_record_lock / release_record_lock / try_record_access / open_file / close_file: Permission denied iff the requested range overlaps a lock held on the same file name through any number, '
+          'pairwise disjointness of held locks is preserved, UNLOCK succeeds only for exactly the locked bounds, access inside a range locked through another number is denied, '
+          'a file open for OUTPUT/APPEND cannot be opened again until closed. All range bounds are unbounded symbolic integers.',
+  'note': _TB + 'Harness structure: up to 2 locks per file number on 3 numbers (10 shapes); lock sets use a by-value set stand-in; LOCK/ACCESS clause matrix of OPEN only in its default row. Two defects found and fixed (705e918b).',
+}
+
 NOT_APPLICABLE = {
 }
